@@ -38,6 +38,8 @@ def run(ctx):
     c01.p14(ctx, R)
     c01.p15(ctx, R)
     c01.g4(ctx, R)
+    from .c03 import g8
+    g8(ctx, R)
     # printing must not change what the next parse sees: the definition tables are shared by printer and recorder (H1, shared with C13)
     from .c13 import h1
     h1(ctx, R, only={"args_definition", "must_follow", "lrules"})
